@@ -2,8 +2,8 @@
 // (properties C01, C02; also supplies events/traces to C03, C04, C05).
 //
 // stdin: one job per line
-//   B <id> <name> <seed> <pin_pos> <pin_val> <k> p1 .. pk        background/calibration nuclide; p = planned value for
-//                                                               the i-th scheme-level draw, 'x' = free (seeded stream)
+//   B <id> <name> <seed> <pin_pos> <pin_val> <nplans> {<k> p1 .. pk}*   background/calibration nuclide; the j-th plan
+//            applies to the j-th scheme routine entered; p = planned value of its i-th scheme-level draw, 'x' = free
 //   D <id> <name> <level> <mode> <emin|x> <emax|x> <seed> <nev> <pin_pos> <pin_val> <k> p1 .. pk
 //                                                               double beta: init on both sides, then nev events;
 //                                                               plan applies to the cascade's scheme-level draws
@@ -252,6 +252,49 @@ static void dump_trace(const std::string & id, const std::string & name, const v
   std::fprintf(trace_out, "]}\n");
 }
 
+static FILE * sch_out = nullptr;
+
+static bool is_low_name(const std::string & n) { return n.size() > 3 && n.compare(n.size() - 3, 3, "low") == 0; }
+
+// Scheme-level projection of one decay for spec/TraceScheme.tla: per scheme routine entered, the scheme-level
+// deviates and the primitive calls made directly by the routine, in program order.
+static void dump_sch_trace(const vh::Recorder & rec, const vh::PlanSource & src)
+{
+  if (!sch_out) return;
+  std::fprintf(sch_out, "{\"e\":\"Reset\"}\n");
+  size_t flushed = 0; // deviates [0, flushed) already attributed
+  int sdepth = -1;
+  auto flush = [&](size_t upto) {
+    for (; flushed < upto && flushed < src.log.size(); flushed++) {
+      if (src.level[flushed] != 's' || sdepth < 0) continue;
+      double u  = src.log[flushed];
+      long a    = (long)std::floor(u * 1e6);
+      long b    = (long)std::floor((u * 1e6 - (double)a) * 1e6);
+      if (b > 999999) b = 999999;
+      if (b < 0) b = 0;
+      std::fprintf(sch_out, "{\"e\":\"Draw\",\"a\":%ld,\"b\":%ld}\n", a, b);
+    }
+  };
+  for (const auto & e : rec.evs) {
+    if (e.kind == 0 && e.name.compare(0, 7, "scheme:") == 0) {
+      flush(e.draws);
+      std::string nm = e.name.substr(7);
+      if (is_low_name(nm)) nm += "@" + std::to_string((long)e.a[0]);
+      std::fprintf(sch_out, "{\"e\":\"Enter\",\"s\":\"%s\"}\n", nm.c_str());
+      sdepth = e.depth;
+    } else if (e.kind == 1 && e.name.compare(0, 7, "scheme:") == 0 && e.depth == sdepth) {
+      flush(e.draws);
+      std::fprintf(sch_out, "{\"e\":\"Ret\"}\n");
+      sdepth = -1;
+    } else if (e.kind == 0 && sdepth >= 0 && e.depth == sdepth + 1) {
+      flush(e.draws);
+      std::fprintf(sch_out, "{\"e\":\"Call\",\"p\":\"%s\",\"args\":[", e.name.c_str());
+      for (size_t i = 0; i < e.a.size(); i++) std::fprintf(sch_out, "%s\"%.12g\"", i ? "," : "", e.a[i]);
+      std::fprintf(sch_out, "]}\n");
+    }
+  }
+}
+
 static void emit(const std::string & id, const Result & r, const std::string & extra = "")
 {
   std::printf("{\"id\":\"%s\",\"cls\":\"%s\",\"detail\":\"%s\",\"ndraws\":%zu,\"np\":%zu,\"min_margin\":%.3g,\"pair\":%s,\"sig\":\"%s\"%s}\n",
@@ -294,6 +337,7 @@ int main(int argc, char ** argv)
 {
   for (int i = 1; i < argc; i++) {
     if (std::string(argv[i]) == "--trace" && i + 1 < argc) trace_out = std::fopen(argv[++i], "w");
+    if (std::string(argv[i]) == "--sch-trace" && i + 1 < argc) sch_out = std::fopen(argv[++i], "w");
   }
   std::set<std::string> ref_bkg_inited;
   std::string line;
@@ -306,18 +350,37 @@ int main(int argc, char ** argv)
       uint64_t seed;
       long pin_pos;
       double pin_val;
-      size_t k;
-      ls >> seed >> pin_pos >> pin_val >> k;
+      size_t nplans;
+      ls >> seed >> pin_pos >> pin_val >> nplans;
       vh::Recorder rec;
       vh::PlanSource src(seed);
       src.rec = &rec;
       rec.draws_ptr = &src.ndraws;
+      rec.scheme_counter = &src.scheme_index;
       src.pin_pos = pin_pos;
       src.pin_val = pin_val;
-      for (size_t i = 0; i < k; i++) {
-        std::string s;
-        ls >> s;
-        src.plan.push_back(parse_plan_val(s));
+      for (size_t ip = 0; ip < nplans; ip++) {
+        size_t k;
+        ls >> k;
+        std::vector<double> pl;
+        for (size_t i = 0; i < k; i++) {
+          std::string s;
+          ls >> s;
+          pl.push_back(parse_plan_val(s));
+        }
+        src.plans.push_back(pl);
+      }
+      {
+        std::string tag;
+        if (ls >> tag && tag == "T") {
+          size_t k;
+          ls >> k;
+          for (size_t i = 0; i < k; i++) {
+            std::string s;
+            ls >> s;
+            src.tplan.push_back(parse_plan_val(s));
+          }
+        }
       }
       Result r;
       bxdecay0::event ev;
@@ -350,6 +413,7 @@ int main(int argc, char ** argv)
         }
       }
       dump_trace(id, name, rec, src, ev);
+      dump_sch_trace(rec, src);
       emit(id, r);
     } else if (kind == "D") {
       int level, mode, nev;
@@ -357,13 +421,32 @@ int main(int argc, char ** argv)
       uint64_t seed;
       long pin_pos;
       double pin_val;
-      size_t k;
-      ls >> level >> mode >> semin >> semax >> seed >> nev >> pin_pos >> pin_val >> k;
-      std::vector<double> plan;
-      for (size_t i = 0; i < k; i++) {
-        std::string s;
-        ls >> s;
-        plan.push_back(parse_plan_val(s));
+      size_t nplans;
+      ls >> level >> mode >> semin >> semax >> seed >> nev >> pin_pos >> pin_val >> nplans;
+      std::vector<std::vector<double>> plans;
+      for (size_t ip = 0; ip < nplans; ip++) {
+        size_t k;
+        ls >> k;
+        std::vector<double> pl;
+        for (size_t i = 0; i < k; i++) {
+          std::string s;
+          ls >> s;
+          pl.push_back(parse_plan_val(s));
+        }
+        plans.push_back(pl);
+      }
+      std::vector<double> tplan;
+      {
+        std::string tag;
+        if (ls >> tag && tag == "T") {
+          size_t k;
+          ls >> k;
+          for (size_t i = 0; i < k; i++) {
+            std::string s;
+            ls >> s;
+            tplan.push_back(parse_plan_val(s));
+          }
+        }
       }
       bxdecay0::bbpars pars;
       if (semin != "x") pars.ebb1 = std::atof(semin.c_str());
@@ -408,9 +491,11 @@ int main(int argc, char ** argv)
       for (int iev = 0; iev < nev; iev++) {
         vh::Recorder rec;
         vh::PlanSource src(seed * 1000003ULL + iev + 1);
-        src.rec       = &rec;
-        rec.draws_ptr = &src.ndraws;
-        src.plan      = plan;
+        src.rec            = &rec;
+        rec.draws_ptr      = &src.ndraws;
+        rec.scheme_counter = &src.scheme_index;
+        src.plans          = plans;
+        src.tplan          = tplan;
         if (iev == 0) {
           src.pin_pos = pin_pos;
           src.pin_val = pin_val;
@@ -435,10 +520,12 @@ int main(int argc, char ** argv)
           }
         }
         dump_trace(id + ":" + std::to_string(iev), name, rec, src, ev);
+        dump_sch_trace(rec, src);
         emit(id + ":" + std::to_string(iev), r);
       }
     }
   }
   if (trace_out) std::fclose(trace_out);
+  if (sch_out) std::fclose(sch_out);
   return 0;
 }
